@@ -23,7 +23,7 @@ var c08BinOps = []token.Token{token.OR, token.AND, token.LOR, token.LAND, token.
 	token.GTR, token.GEQ, token.MAT, token.NMAT, token.ADD, token.SUB, token.MUL, token.QUO}
 
 var c08UnOps = []token.Token{token.ADD, token.SUB, token.NOT, token.MUL, token.LSS, token.LEQ, token.GEQ, token.GTR,
-	token.NEQ, token.MAT, token.NMAT}
+	token.NEQ, token.MAT, token.NMAT, token.EQL}
 
 func c08IsModelOp(t token.Token) bool {
 	for _, o := range c08OpToks {
@@ -45,7 +45,28 @@ func c08Scan(src string) (res string) {
 	var s scanner.Scanner
 	f := token.NewFile("", -1, len(src))
 	bad := false
-	s.Init(f, []byte(src), func(pos token.Pos, msg string, args []interface{}) { bad = true }, scanner.DontInsertCommas)
+	s.Init(f, []byte(src), func(pos token.Pos, msg string, args []interface{}) { bad = true }, scanner.DontInsertCommas|scanner.ScanComments)
+	// a NUMBER directly followed by a letter (`1a` = INT IDENT, `1K`, `1e5`) is outside the model
+	isL := func(b byte) bool { return b >= 'a' && b <= 'z' || b >= 'A' && b <= 'Z' }
+	isD := func(b byte) bool { return b >= '0' && b <= '9' }
+	for i := 0; i < len(src); {
+		if !isL(src[i]) && !isD(src[i]) {
+			i++
+			continue
+		}
+		j := i
+		for j < len(src) && (isL(src[j]) || isD(src[j])) {
+			j++
+		}
+		if isD(src[i]) {
+			for k := i; k < j; k++ {
+				if isL(src[k]) {
+					return "none"
+				}
+			}
+		}
+		i = j
+	}
 	var out []string
 	for {
 		_, tok, lit := s.Scan()
@@ -226,6 +247,8 @@ func c08NodeFmt(e ast.Expr) (out string, err error) {
 
 func c08ExprOps(c *Cfg, e c08Expr) {
 	merge := hasUnaryMerge(e.node)
+	chain := hasRightNestedChain(e.node)
+	hasOrAnd := strings.Contains(e.wire, "B18(") || strings.Contains(e.wire, "B19(")
 	c.Case("expr:"+e.wire, strings.ContainsAny(e.wire, "UB"))
 	c.Count(fmt.Sprintf("expr-size:%d", min(strings.Count(e.wire, "(")/4*4, 40)))
 	for _, v2 := range []bool{true, false} {
@@ -233,6 +256,10 @@ func c08ExprOps(c *Cfg, e c08Expr) {
 		mode, tag := "v1", ""
 		if v2 {
 			mode = "v2"
+			if chain {
+				tag = "v2-programmatic-right-nested-or-and-chain-flattened"
+				c.Count("expr-v2-right-nested-chain-shape")
+			}
 		} else if merge {
 			tag = "v1-unary-op-merges-with-operand"
 			c.Count("expr-v1-merge-shape")
@@ -258,7 +285,11 @@ func c08ExprOps(c *Cfg, e c08Expr) {
 		// I: the exact characters (blank policy); multi-line layouts are outside the model
 		if !strings.Contains(out, "\n") {
 			if v2 {
-				c.Op("I", "fmt2 "+e.wire, H(out))
+				// `|` / `&` chains go through chainGroupArms (arms rendered afresh, soft line breaks):
+				// not modelled at the character level; their tokens are compared by the O ops above
+				if !hasOrAnd {
+					c.Op("I", "fmt2 "+e.wire, H(out))
+				}
 			} else {
 				c.Op("I", "fmt1 "+e.wire, H(out))
 			}
@@ -269,10 +300,27 @@ func c08ExprOps(c *Cfg, e c08Expr) {
 		if perr == nil {
 			out2, err2 := c08NodeFmt(pe)
 			ok := err2 == nil && out2 == out
-			cls := "expr-not-idempotent-" + mode
+			cls := "programmatic-expr-spacing-not-idempotent-" + mode
+			if tag != "" {
+				cls = tag
+			}
 			c.Direct(ok, cls, fmt.Sprintf("format.Node(parse(out)) != out: %q then %q (%v)", out, out2, err2), e.wire)
 		}
 	}
+}
+
+// hasRightNestedChain: `x | (y | z)` / `x & (y & z)` built WITHOUT a ParenExpr node.
+func hasRightNestedChain(e ast.Expr) bool {
+	found := false
+	ast.Walk(e, func(n ast.Node) bool {
+		if b, ok := n.(*ast.BinaryExpr); ok && (b.Op == token.OR || b.Op == token.AND) {
+			if y, ok := b.Y.(*ast.BinaryExpr); ok && y.Op == b.Op {
+				found = true
+			}
+		}
+		return !found
+	}, nil)
+	return found
 }
 
 func c08ExprCases(c *Cfg, r *Rng) {
@@ -378,8 +426,7 @@ func c08GenExt(r *Rng, depth int) ast.Expr {
 	sub := func() ast.Expr { return c08GenExt(r, depth-1) }
 	switch r.Intn(12) {
 	case 0, 1:
-		ops := append([]token.Token{token.EQL}, c08UnOps...)
-		return &ast.UnaryExpr{Op: Pick(r, ops), X: sub()}
+		return &ast.UnaryExpr{Op: Pick(r, c08UnOps), X: sub()}
 	case 2, 3, 4:
 		return &ast.BinaryExpr{Op: Pick(r, c08BinOps), X: sub(), Y: sub()}
 	case 5:
@@ -446,6 +493,9 @@ func c08ExtClass(e ast.Expr, v2 bool) string {
 	}, nil)
 	if cls == "" && !v2 && hasUnaryMerge(e) {
 		cls = "v1-unary-op-merges-with-operand"
+	}
+	if cls == "" && v2 && hasRightNestedChain(e) {
+		cls = "v2-programmatic-right-nested-or-and-chain-flattened"
 	}
 	return cls
 }
